@@ -115,7 +115,7 @@ PROPERTIES = {
         "explanation": "R-SENTINEL on offset_labels, R-COPERMUTE, R-PAIRS, R-CODEWIDTH (per-slice offsets are added to intp codes)",
     },
     "C10": {
-        "rules": [M.rule_scantable, rule_stable, M.rule_promote, rule_pure, M.rule_kindmissing],
+        "rules": [M.rule_scantable, rule_stable, M.rule_promote, rule_pure, M.rule_kindmissing, M.rule_scanacc],
         "thorough": [selftest, seeded_regression],
         "technique": "registry constant-evaluation + scan table; stable-sort sites",
         "level_text": "Static: the three scan blueprints are consistent (operator identity, carried reduction, in-block scan), bfill is the "
@@ -151,7 +151,7 @@ PROPERTIES = {
         "explanation": "R-BLOCKONLY; R-UNPERMUTE (vector q: rows come back in the order given); R-TOKEN (q / ddof are part of the layer names)",
     },
     "C20": {
-        "rules": [M.rule_collide, M.rule_castorder, rule_infresolve, M.rule_varshift, M.rule_accdtype],
+        "rules": [M.rule_collide, M.rule_castorder, rule_infresolve, M.rule_varshift, M.rule_accdtype, M.rule_scanacc],
         "thorough": [selftest, seeded_regression],
         "technique": "sentinel-collision pattern on NaN substitutes; dtype plumbing of the engine wrappers; widening table",
         "level_text": "Static: no all-NaN detector compares a result with its own NaN substitute unless conjoined with a valid-member "
